@@ -29,7 +29,8 @@ Lits == [
   u3  |-> <<226, 130, 172>>,                  \* euro
   u4  |-> <<32, 240, 159, 152, 128>>,         \* space, 4-byte
   br  |-> <<123, 125, 36>>,                   \* { } $
-  qb  |-> <<34, 92, 10>>                      \* quote, backslash, newline
+  qb  |-> <<34, 92, 10>>,                     \* quote, backslash, newline
+  like |-> <<36, 123, 118, 125>>              \* the text `${v}` itself (written \${v}): not a slot
 ]
 SlotEs == [
   var    |-> Vv,
@@ -79,7 +80,7 @@ C15Params ==
     \cup { <<"interp", l0, s1, l1, "-", "e">> : l0 \in DOMAIN Lits, s1 \in DOMAIN SlotEs, l1 \in DOMAIN Lits }
     \cup (IF MaxSlots >= 2
           THEN { <<"interp", l0, s1, l1, s2, l2>> :
-                   l0 \in {"e", "u2"}, s1 \in DOMAIN SlotEs, l1 \in {"e", "u3", "qb"},
+                   l0 \in {"e", "u2"}, s1 \in DOMAIN SlotEs, l1 \in {"e", "u3", "qb", "like"},
                    s2 \in StringSlots \cup {"int"}, l2 \in {"e", "a"} }
           ELSE {})
     \cup { <<"bytes", sx, "-", "-", "-", "-">> : sx \in DOMAIN StrPool }
